@@ -10,7 +10,8 @@ From ZV.Stream Require Import DStreamModel CStreamModel CStreamProofs StreamInst
 From ZV.Stream Require Import DStreamSpec DStreamCont DStreamProofs DStreamSpecLink DStreamRefine.
 From ZV.Stream Require Import WindowModel WindowProofs.
 From ZV.Codec Require Import Frame Encode.
-From ZV.Stream Require Import StoreStream StoreStreamProofs.
+From ZV.Stream Require Import StoreStream StoreStreamProofs StoreStreamE2E.
+From ZV.Stream Require Import StreamInstProofs.
 Import ListNotations.
 Local Open Scope N_scope.
 
@@ -237,3 +238,39 @@ Example C02_store_stream_history :
   | None => False
   end.
 Proof. vm_compute. repeat split; reflexivity. Qed.
+
+(* ================= both state machines composed ================= *)
+
+(* the statement of the property itself, for the store compressor: EVERY history of ZSTD_compressStream2 calls (any input
+   slicing, output capacities, directives, frame parameters) that ends with a completed frame, followed by EVERY
+   segmentation of the emitted bytes into ZSTD_decompressStream calls (any slices, any output capacities):
+   no decoding call fails (except the caller-induced no-progress reports), what comes out is, in order, a prefix of the
+   consumed input, and when the decoder has been given everything and returns 0 it has regenerated exactly the consumed
+   input.  Side conditions on the decoder parameters: zstd1 format, no ZSTD_d_maxBlockSize, window limit >= 2^27 (the
+   default), not stable-out; on the data: bytes. *)
+Theorem C02_store_stream_end_to_end :
+  forall (P : kparams) (Pd : dparams) (X : bytes) (cs : sst) (calls : list kcall) (k' : kstate sst) (pos' : N) (emitted' : bytes),
+  calls_ok calls ->
+  krun sst store_begin store_chunk P (k_new cs) X 0 calls [] = Some (k', pos', emitted') ->
+  k_stage k' = KInit -> k_frameEnded k' = true -> k_held k' = [] ->
+  bytes_ok X ->
+  dp_magicless Pd = false -> dp_maxBlock Pd = 0 -> pow2 27 <= dp_maxWindow Pd -> dp_stableOut Pd = false -> OBMAX Pd < UNKNOWN ->
+  forall (dcalls : list dcall) outs z' rest,
+  drun RH r_init r_raw r_rle r_cblock r_hash Pd (Rz_new Pd) emitted' dcalls [] = (outs, z', rest) ->
+  exists crest' taken,
+    tk pos' X = emitted outs ++ crest' /\ emitted' = taken ++ rest /\
+    Forall (ok_ret RH) outs /\
+    (last_ret RH None outs = Some (MOk 0) -> rest = [] -> emitted outs = tk pos' X).
+Proof. exact store_stream_e2e. Qed.
+Print Assumptions C02_store_stream_end_to_end.
+
+(* premises met: the default decoder parameters, and the frame of C02_store_stream_history decoded in four calls offering
+   7 bytes each with room for 1, 2, 100, 100 bytes: returns 2, 3, 2, 0, everything consumed, content regenerated *)
+Example C02_end_to_end_history :
+  dp_magicless default_dparams = false /\ dp_maxBlock default_dparams = 0 /\ pow2 27 <= dp_maxWindow default_dparams /\
+  dp_stableOut default_dparams = false /\ OBMAX default_dparams < UNKNOWN /\
+  let em := [40; 181; 47; 253; 4; 56; 24; 0; 0; 1; 2; 3; 17; 0; 0; 4; 5; 47; 214; 192; 132] in
+  let '(outs, z, rest) := drun RH r_init r_raw r_rle r_cblock r_hash default_dparams (Rz_new default_dparams) em
+      [ {| dc_in := 7; dc_cap := 1 |}; {| dc_in := 7; dc_cap := 2 |}; {| dc_in := 7; dc_cap := 100 |}; {| dc_in := 7; dc_cap := 100 |} ] [] in
+  emitted outs = [1; 2; 3; 4; 5] /\ rest = [] /\ last_ret RH None outs = Some (MOk 0).
+Proof. vm_compute. repeat split; try reflexivity; discriminate. Qed.
